@@ -1175,15 +1175,18 @@ class n0dict(n0dict_):
             # elif '=' in node_index:
             elif isinstance(node_index, tuple):
                 if node_index[0] == 'text()':
-                    if isinstance(parent_node, int):
-                        node_index[2] = int(node_index[2])
-                    elif isinstance(parent_node, float):
-                        node_index[2] = float(node_index[2])
+                    try:
+                        if isinstance(parent_node, int):
+                            node_index = (node_index[0], node_index[1], int(node_index[2]))
+                        elif isinstance(parent_node, float):
+                            node_index = (node_index[0], node_index[1], float(node_index[2]))
+                    except ValueError:
+                        pass  # expected_value is not a number, so it differs from any number
 
                     if node_index[1][1] == '=':
                         comparing_result = parent_node == node_index[2]  # expected_value
                     elif node_index[1][1] == '~':
-                        comparing_result = node_index[2] in parent_node  # expected_value
+                        comparing_result = isinstance(parent_node, (str, list, tuple, dict)) and node_index[2] in parent_node  # expected_value
                     else:
                         raise SyntaxError(f"Unknown comparing command in {str(node_index)}")
 
